@@ -424,6 +424,9 @@ impl<T: Value> Tree<T> {
     ///   method returns.
     /// - `current_depth`: The depth of the tree `orig`. This will be decremented as we recurse
     ///   down the tree towards the leaves.
+    /// - `length`: The number of elements stored in `orig`. Only subtrees which are completely
+    ///   full are de-duplicated: a partially filled subtree padded with `Zero` nodes can have the
+    ///   same hash as a full subtree of zero values without being equal to it.
     ///
     /// Presently leaves are left untouched by this procedure, so it will only produce savings in
     /// trees with equal internal nodes (i.e. equal subtrees with at least two leaves/packed leaves
@@ -434,6 +437,7 @@ impl<T: Value> Tree<T> {
         orig: &Arc<Self>,
         known_subtrees: &mut HashMap<(usize, Hash256), Arc<Self>>,
         current_depth: usize,
+        length: usize,
     ) -> Result<IntraRebaseAction<Self>, Error> {
         match &**orig {
             Self::Leaf(_) | Self::PackedLeaf(_) | Self::Zero(_) => Ok(IntraRebaseAction::Noop),
@@ -445,14 +449,24 @@ impl<T: Value> Tree<T> {
                     return Err(Error::IntraRebaseZeroHash);
                 }
 
-                if let Some(known_subtree) = known_subtrees.get(&(current_depth, hash)) {
-                    // Node is already known from elsewhere in the tree. We can replace it without
-                    // looking at further subtrees.
-                    return Ok(IntraRebaseAction::Replace(known_subtree.clone()));
+                let packing_depth = opt_packing_depth::<T>().unwrap_or(0);
+                let max_left_length = 1 << (current_depth - 1 + packing_depth);
+                let left_length = std::cmp::min(length, max_left_length);
+                let right_length = length - left_length;
+                let is_full = right_length == max_left_length;
+
+                if is_full {
+                    if let Some(known_subtree) = known_subtrees.get(&(current_depth, hash)) {
+                        // Node is already known from elsewhere in the tree. We can replace it
+                        // without looking at further subtrees.
+                        return Ok(IntraRebaseAction::Replace(known_subtree.clone()));
+                    }
                 }
 
-                let left_action = Self::intra_rebase(left, known_subtrees, current_depth - 1)?;
-                let right_action = Self::intra_rebase(right, known_subtrees, current_depth - 1)?;
+                let left_action =
+                    Self::intra_rebase(left, known_subtrees, current_depth - 1, left_length)?;
+                let right_action =
+                    Self::intra_rebase(right, known_subtrees, current_depth - 1, right_length)?;
 
                 let action = match (left_action, right_action) {
                     (IntraRebaseAction::Noop, IntraRebaseAction::Noop) => IntraRebaseAction::Noop,
@@ -468,20 +482,23 @@ impl<T: Value> Tree<T> {
                     ) => IntraRebaseAction::Replace(Self::node(new_left, new_right, hash)),
                 };
 
-                // Add the new version of this node to the known subtrees.
-                let new_subtree = match &action {
-                    // `orig` has not been seen in this traversal and will not change, so we add it
-                    // to the map.
-                    IntraRebaseAction::Noop => orig.clone(),
-                    IntraRebaseAction::Replace(new) => new.clone(),
-                };
-                let existing_entry = known_subtrees.insert((current_depth, hash), new_subtree);
+                if is_full {
+                    // Add the new version of this node to the known subtrees.
+                    let new_subtree = match &action {
+                        // `orig` has not been seen in this traversal and will not change, so we
+                        // add it to the map.
+                        IntraRebaseAction::Noop => orig.clone(),
+                        IntraRebaseAction::Replace(new) => new.clone(),
+                    };
+                    let existing_entry =
+                        known_subtrees.insert((current_depth, hash), new_subtree);
 
-                // We should not add any identical node to the `known_subtrees` more than once.
-                // This indicates an error in this method's implementation or the map passed in not
-                // being empty.
-                if existing_entry.is_some() {
-                    return Err(Error::IntraRebaseRepeatVisit);
+                    // We should not add any identical node to the `known_subtrees` more than
+                    // once. This indicates an error in this method's implementation or the map
+                    // passed in not being empty.
+                    if existing_entry.is_some() {
+                        return Err(Error::IntraRebaseRepeatVisit);
+                    }
                 }
 
                 Ok(action)
